@@ -42,6 +42,9 @@ type Check struct {
 	Values func(fn *ssa.Function) []ssa.Value
 	// TailOK: a `return <check call>()` in tail position counts as the gate for SuccessReturn effects (default true)
 	NoTail bool
+	// EachSiteTested: every matching call site must have its result tested by a branch (or returned in tail position);
+	// a site whose result is discarded is reported (for "all of N attempts must fail/succeed" checks)
+	EachSiteTested bool
 }
 
 // CmpPat: a comparison L op R (op in ==, <, <=; the matcher also recognises the mirrored and negated spellings).
@@ -465,6 +468,11 @@ func (g *gateRun) findPassEdges(c Check, into EdgeSet) (sites int, tested int, c
 					continue
 				}
 			}
+			// a binary check applied to one value twice (x.Equals(x), f(x, x)) decides nothing
+			if as := ci.Common().Args; len(as) == 2 && SameExpr(as[0], as[1], 4) {
+				complaints = append(complaints, fmt.Sprintf("%s: vacuous check: %s compares a value with itself (%s)", g.p.Pos(ci.Pos()), c.Desc, AccessPath(as[0], 0)))
+				continue
+			}
 			val, ok := ci.(*ssa.Call)
 			if !ok {
 				continue // go/defer: result unused
@@ -484,12 +492,18 @@ func (g *gateRun) findPassEdges(c Check, into EdgeSet) (sites int, tested int, c
 					}
 				}
 				if tv == nil {
+					if c.EachSiteTested {
+						complaints = append(complaints, fmt.Sprintf("%s: the result of %s is discarded", g.p.Pos(ci.Pos()), c.Desc))
+					}
 					continue // result discarded: no pass edge; effect will be reachable
 				}
 			}
 			g.checkVals[tv] = c.Pass
 			n := g.edgesTesting(tv, c.Pass, into)
 			tested += n
+			if c.EachSiteTested && n == 0 && !valueReturned(tv) {
+				complaints = append(complaints, fmt.Sprintf("%s: the result of %s is not tested by any branch", g.p.Pos(ci.Pos()), c.Desc))
+			}
 		}
 	}
 	if c.Values != nil {
@@ -543,6 +557,10 @@ func (g *gateRun) findPassEdges(c Check, into EdgeSet) (sites int, tested int, c
 			}
 			sites++
 			tested++
+			if SameExpr(bin.X, bin.Y, 4) {
+				complaints = append(complaints, fmt.Sprintf("%s: vacuous check: %s compares a value with itself (%s)", g.p.Pos(bin.Pos()), c.Desc, AccessPath(bin.X, 0)))
+				continue
+			}
 			// bin true => (L op R) == holds ; cond true => bin == !neg
 			// pass edge: (L op R) == PassWhen
 			condTrueMeans := holds != neg // value of (L op R) when cond evaluates true
@@ -1217,4 +1235,96 @@ func ConstNilReturn() Effect {
 		c, ok := unspill(ret.Results[len(ret.Results)-1]).(*ssa.Const)
 		return ok && c.IsNil()
 	})
+}
+
+// SameExpr: structural equality of two SSA expressions (go/ssa performs no common-subexpression elimination, so the same
+// source expression evaluated twice yields two values): identical values, loads of the same address expression, field
+// or index selections of equal bases, conversions of equal values, or calls of the same static callee / interface method
+// with pairwise equal arguments.
+func SameExpr(a, b ssa.Value, depth int) bool {
+	if a == b {
+		return true
+	}
+	if depth <= 0 || a == nil || b == nil {
+		return false
+	}
+	switch x := a.(type) {
+	case *ssa.Const:
+		y, ok := b.(*ssa.Const)
+		return ok && x.Value != nil && y.Value != nil && x.Value.ExactString() == y.Value.ExactString() && types.Identical(x.Type(), y.Type())
+	case *ssa.UnOp:
+		y, ok := b.(*ssa.UnOp)
+		return ok && x.Op == y.Op && SameExpr(x.X, y.X, depth-1)
+	case *ssa.FieldAddr:
+		y, ok := b.(*ssa.FieldAddr)
+		return ok && x.Field == y.Field && SameExpr(x.X, y.X, depth-1)
+	case *ssa.Field:
+		y, ok := b.(*ssa.Field)
+		return ok && x.Field == y.Field && SameExpr(x.X, y.X, depth-1)
+	case *ssa.IndexAddr:
+		y, ok := b.(*ssa.IndexAddr)
+		return ok && SameExpr(x.X, y.X, depth-1) && SameExpr(x.Index, y.Index, depth-1)
+	case *ssa.Convert:
+		y, ok := b.(*ssa.Convert)
+		return ok && SameExpr(x.X, y.X, depth-1)
+	case *ssa.ChangeType:
+		y, ok := b.(*ssa.ChangeType)
+		return ok && SameExpr(x.X, y.X, depth-1)
+	case *ssa.MakeInterface:
+		y, ok := b.(*ssa.MakeInterface)
+		return ok && SameExpr(x.X, y.X, depth-1)
+	case *ssa.ChangeInterface:
+		y, ok := b.(*ssa.ChangeInterface)
+		return ok && SameExpr(x.X, y.X, depth-1)
+	case *ssa.Extract:
+		y, ok := b.(*ssa.Extract)
+		return ok && x.Index == y.Index && SameExpr(x.Tuple, y.Tuple, depth-1)
+	case *ssa.Call:
+		y, ok := b.(*ssa.Call)
+		if !ok || len(x.Call.Args) != len(y.Call.Args) {
+			return false
+		}
+		if x.Call.IsInvoke() != y.Call.IsInvoke() {
+			return false
+		}
+		if x.Call.IsInvoke() {
+			if x.Call.Method != y.Call.Method || !SameExpr(x.Call.Value, y.Call.Value, depth-1) {
+				return false
+			}
+		} else {
+			fx, fy := x.Call.StaticCallee(), y.Call.StaticCallee()
+			if fx == nil || fx != fy {
+				return false
+			}
+			// calls that produce a fresh value each time are never "the same"
+			if fx.Pkg != nil && (fx.Pkg.Pkg.Path() == "time" && fx.Name() == "Now" || fx.Pkg.Pkg.Path() == "crypto/rand" || fx.Pkg.Pkg.Path() == "github.com/google/uuid") {
+				return false
+			}
+		}
+		for i := range x.Call.Args {
+			if !SameExpr(x.Call.Args[i], y.Call.Args[i], depth-1) {
+				return false
+			}
+		}
+		return true
+	}
+	return false
+}
+
+func valueReturned(v ssa.Value) bool {
+	if v.Referrers() == nil {
+		return false
+	}
+	for _, ref := range *v.Referrers() {
+		switch x := ref.(type) {
+		case *ssa.Return:
+			return true
+		case *ssa.Store:
+			_ = x
+			return true // stored into a result cell / variable that is examined elsewhere
+		case *ssa.Phi:
+			return true
+		}
+	}
+	return false
 }
